@@ -1,4 +1,10 @@
-"""C08 -- barriers (structural part)."""
+"""C08 -- barriers (structural part).
+
+All rules are phrased over canonical facts (abtverif.canon): conditions by `Record::field` labels
+independent of local names and of the polarity of the test, "read under the lock" by `rd` tokens
+instead of named temporaries."""
+import re
+
 from abtverif import seq
 from abtverif.seq import idx, is_call, is_acq, is_rel, is_xfer, held_at, show, has_if
 from . import common
@@ -22,12 +28,59 @@ RULES_DOC.update({
 })
 VARIANTS = ["no_pthread_barrier", "active_wait", "no_ext_thread"]
 BL = "ABTI_barrier::lock"
+CNT, NW = "ABTI_barrier::counter", "ABTI_barrier::num_waiters"
+XCNT, XNW, XTAG = "ABTI_xstream_barrier::counter", "ABTI_xstream_barrier::num_waiters", "ABTI_xstream_barrier::tag"
+_TAG_LOAD = re.compile(r"^ABTD_atomic_(\w+?)_load_\w+\(&%s\)$" % re.escape(XTAG))
+
+
+def _bw_cond(t):
+    """Canonical labels of ABT_barrier_wait's tests (local names / polarity / operand order independent).
+    `counter < num_waiters` (also written `num_waiters > counter`, `!(counter >= num_waiters)`, or through a
+    local holding either operand) is 'not-all'; `counter == num_waiters` is its negation because the arrival
+    count never exceeds num_waiters."""
+    if t == "%s < %s" % (CNT, NW):
+        return "not-all"
+    if t == "%s == %s" % tuple(sorted((CNT, NW))):
+        return ("not-all", True)
+    return None
+
+
+def _is_inc(t, path):
+    """A store token that adds one to `path`: x++ / ++x / x += 1 / x = x + 1."""
+    if t[0] != "st" or t[1] != path:
+        return False
+    return t[2] == "++" or (t[2] == "+=" and t[3] == 1) or \
+        (t[2] == "=" and str(t[3]) in ("%s + 1" % path, "1 + %s" % path))
+
+
+def _is_reset(t, path):
+    return t[0] == "st" and t[1] == path and t[2] == "=" and t[3] == 0
+
+
+def _xb_cond(t):
+    """Canonical labels of ABT_xstream_barrier_wait's tests."""
+    if t == "1 < %s" % XNW:
+        return "many"                   # num_waiters > 1
+    if t == "%s < 2" % XNW:
+        return ("many", True)           # !(num_waiters < 2)
+    if t == "%s == %s" % tuple(sorted((XCNT, XNW))):
+        return "last"
+    if t == "%s < %s" % (XCNT, XNW):
+        return ("last", True)           # counter >= num_waiters (the count never exceeds num_waiters)
+    if " == " in t:
+        a, b = t.split(" == ", 1)
+        ma, mb = _TAG_LOAD.match(a), _TAG_LOAD.match(b)
+        if ma and mb and "acquire" in (ma.group(1), mb.group(1)):
+            return "spin"               # <tag read earlier> == acquire-load(tag)
+    if XCNT in t or XTAG in t or XNW in t:
+        return "other:" + t
+    return None
 
 
 def rule_R1_R2(P, rep):
     F = P.fn("ABT_barrier_wait", "src/barrier.c")
     sel = seq.Sel(calls={"ABTI_waitlist_broadcast", "ABTI_waitlist_signal"}, fields={"counter", "num_waiters"},
-                  conds=lambda t: "counter" in t)
+                  conds=_bw_cond, reads={CNT}, canon=True)
     ps = [p for p in seq.sequences(F, sel) if p[1] == "ret"]
     kinds = set()
     for toks, kind, rv, rtxt in ps:
@@ -38,12 +91,13 @@ def rule_R1_R2(P, rep):
             rep.ob("R2", "barrier_wait error path -> %s" % rtxt, not why, "; ".join(why), loc=F.file,
                    site="barrier_wait/error/%s" % rtxt)
             continue
-        incs = [i for i, t in enumerate(toks) if t[0] == "st" and t[1] == "ABTI_barrier::counter" and t[2] == "++"]
-        resets = [i for i, t in enumerate(toks) if t[0] == "st" and t[1] == "ABTI_barrier::counter" and t[2] == "=" and t[3] == 0]
-        other = [t for t in toks if t[0] == "st" and t[1].endswith("counter") and not (t[2] == "++" or (t[2] == "=" and t[3] == 0))]
+        incs = [i for i, t in enumerate(toks) if _is_inc(t, CNT)]
+        resets = [i for i, t in enumerate(toks) if _is_reset(t, CNT)]
+        other = [t for t in toks if t[0] == "st" and t[1].endswith("counter") and not (_is_inc(t, CNT) or _is_reset(t, CNT))]
         xf = idx(toks, is_xfer(BL))
         bc = idx(toks, is_call("ABTI_waitlist_broadcast"))
-        cmpi = [i for i, t in enumerate(toks) if t[0] == "if" and "p_barrier->counter < p_barrier->num_waiters" in t[1]]
+        cmpi = [i for i, t in enumerate(toks) if t[0] == "if" and t[1] == "not-all"]
+        rds = [i for i, t in enumerate(toks) if t[0] == "rd" and t[1] == CNT]
         if len(incs) != 1 or other:
             why.append("counter must be incremented exactly once (stores: %s)" % [t[1:4] for t in toks if t[0] == "st"])
         elif not held_at(toks, BL, incs[0]):
@@ -52,6 +106,9 @@ def rule_R1_R2(P, rep):
             why.append("arrival count not compared with num_waiters")
         elif incs and (cmpi[-1] < incs[0] or not held_at(toks, BL, cmpi[-1])):
             why.append("count compared before the increment or outside the lock")
+        elif incs and not any(incs[0] < i < cmpi[-1] and held_at(toks, BL, i) for i in rds):
+            # the compared value may live in a local: it must have been read after the increment, under the lock
+            why.append("the compared count was not read after the increment under the lock")
         if cmpi and toks[cmpi[-1]][2]:
             k = "not-last"
             if len(xf) != 1 or bc or resets:
@@ -93,12 +150,12 @@ def rule_R3(P, rep):
     F = P.fn("ABT_xstream_barrier_wait", "src/stream_barrier.c")
     pthread = bool(F.calls("ABTD_xstream_barrier_wait"))
     if pthread:
-        sel = seq.Sel(calls={"ABTD_xstream_barrier_wait"}, conds=lambda t: "num_waiters" in t)
+        sel = seq.Sel(calls={"ABTD_xstream_barrier_wait"}, conds=_xb_cond, canon=True)
         for toks, kind, rv, rtxt in seq.sequences(F, sel):
             if kind != "ret" or rv != 0:
                 continue
             calls = idx(toks, is_call("ABTD_xstream_barrier_wait"))
-            many = has_if(toks, "p_barrier->num_waiters > 1", True)
+            many = has_if(toks, "many", True)
             ok = (len(calls) == 1) == many and len(calls) <= 1
             if calls:
                 ok = ok and toks[calls[0]][2] == ("&ABTI_xstream_barrier::bar",)
@@ -112,28 +169,28 @@ def rule_R3(P, rep):
         rep.min_instances("R3", 3)
         return
     XL = "ABTI_xstream_barrier::lock"
-    sel = seq.Sel(fields={"counter", "tag"}, conds=lambda t: "counter" in t or "tag" in t or "num_waiters" in t,
-                  decls={"cur_tag", "new_tag"})
+    sel = seq.Sel(fields={"counter", "tag"}, conds=_xb_cond, reads={XTAG}, canon=True)
     kinds = set()
     for toks, kind, rv, rtxt in seq.sequences(F, sel):
         if kind != "ret" or rv != 0:
             continue
-        if not has_if(toks, "p_barrier->num_waiters > 1", True):
+        if not has_if(toks, "many", True):
             ok = not any(t[0] in ("acq", "st", "ast") for t in toks)
             rep.ob("R3", "single-waiter xstream barrier returns immediately", ok, show(toks), loc=F.file,
                    site="xstream_barrier_wait/single")
             continue
         why = []
-        incs = [i for i, t in enumerate(toks) if t[0] == "st" and t[1].endswith("::counter") and t[2] == "++"]
+        incs = [i for i, t in enumerate(toks) if _is_inc(t, XCNT)]
         if len(incs) != 1 or not held_at(toks, XL, incs[0]):
             why.append("counter not incremented exactly once under the lock")
-        last = has_if(toks, "p_barrier->counter == p_barrier->num_waiters", True)
-        reads = [i for i, t in enumerate(toks) if t[0] == "decl" and t[1] == "cur_tag"]
+        last = has_if(toks, "last", True)
+        # reads of the tag (plain or through an atomic load wrapper), whatever temporary receives them
+        reads = [i for i, t in enumerate(toks) if t[0] == "rd" and t[1] == XTAG]
         if not reads or not held_at(toks, XL, reads[0]):
             why.append("current tag not read under the lock")
         if last:
             k = "last"
-            resets = [i for i, t in enumerate(toks) if t[0] == "st" and t[1].endswith("::counter") and t[3] == 0]
+            resets = [i for i, t in enumerate(toks) if _is_reset(t, XCNT)]
             tags = [i for i, t in enumerate(toks) if t[0] == "ast" and t[2].endswith("::tag")]
             if len(resets) != 1 or len(tags) != 1:
                 why.append("last arriver must reset the counter and publish the tag once")
@@ -146,10 +203,15 @@ def rule_R3(P, rep):
                     why.append("reset/tag update outside the lock")
         else:
             k = "not-last"
-            spins = [t for t in toks if t[0] == "if" and "ABTD_atomic_acquire_load_uint64(&p_barrier->tag)" in t[1] and "cur_tag" in t[1]]
-            if not spins or spins[-1][2] is not False:
+            # 'spin' = an acquire load of the tag compared with a value that is itself a load of the tag; that
+            # other value must be the one read under the lock: every evaluation of the spin test performs exactly
+            # one load outside the lock (its acquire load), all remaining loads of the tag are inside the lock
+            spins = [t for t in toks if t[0] == "if" and t[1] == "spin"]
+            outside = [i for i in reads if not held_at(toks, XL, i)]
+            if not spins or spins[-1][2] is not False or len(outside) != len(spins) or \
+                    any("acquire" not in (toks[i][2] or "") for i in outside):
                 why.append("waiter does not leave through an acquire-load of the tag that differs from the one read under the lock")
-            if any(t[0] in ("st", "ast") and not (t[0] == "st" and t[2] == "++") for t in toks):
+            if any(t[0] in ("st", "ast") and not _is_inc(t, XCNT) for t in toks):
                 why.append("non-last arriver writes barrier state")
         if held_at(toks, XL, len(toks)):
             why.append("returns holding the lock")
